@@ -17,6 +17,7 @@ from ..index import Repo, ClassInfo, AnchorError, parents
 from ..cfg import CFG, path_of
 from ..astutil import unparse, call_name, func_params, walk_no_nested, is_abstract, strip_docstring
 from .common import site
+from ..pattern import norm as pn
 
 FORM_TESTS = {"callable", "hasattr", "isinstance", "type", "issparse", "spa.issparse", "len"}
 NORMALISATION_ONLY = {"logdet", "_logdet", "rank", "_rank", "dim", "_dim", "geometry", "_geometry", "name", "_name"}
@@ -463,11 +464,14 @@ def _r5(chk, repo):
     lk = repo.cls("cuqi/likelihood/_likelihood.py:Likelihood")
     for name, want in (("enable_FD", "self.distribution.enable_FD(epsilon)"), ("disable_FD", "self.distribution.disable_FD()")):
         fn = repo.method(lk, name)[1]
-        body = [unparse(s) for s in strip_docstring(fn.body)]
-        chk.add("C03-R5", f"{lk.qual}.{name}", body == [want], site(repo, fn), f"forwards to the distribution: {want}", f"{name} does not forward to the distribution: {body}", fn)
+        from .common import method_effects
+        eff = method_effects(repo, lk, fn)
+        okf = bool(eff) and all(e["kind"] in ("fall", "return") and e["calls"] == [pn(want)] and not e["stores"] for e in eff)
+        chk.add("C03-R5", f"{lk.qual}.{name}", okf, site(repo, fn), f"forwards to the distribution: {want}", f"{name} does not forward to the distribution: {eff}", fn)
     for name in ("FD_enabled", "FD_epsilon"):
         p = lk.lookup_prop(name)
-        ok = p is not None and p.getter is not None and [unparse(s) for s in strip_docstring(p.getter.body)] == [f"return self.distribution.{name}"]
+        from .common import closed_is
+        ok = p is not None and p.getter is not None and closed_is(repo, lk, p.getter, f"self.distribution.{name}")[0]
         chk.add("C03-R5", f"{lk.qual}.@{name}", ok, site(repo, p.getter) if p and p.getter else "", f"reads the distribution's {name}",
                 f"Likelihood.{name} is not the distribution's {name}")
     # classes overriding the public gradient (bypass the FD switch): informational
